@@ -505,6 +505,11 @@ func (u *Unit) heapGet(st *State, name, valSort string) string {
 
 func (u *Unit) heapSet(st *State, name, valSort, term string) {
 	cur := u.heapGet(st, name, valSort)
+	// a store at one index (possibly conditional on the current guard) is logged for the loop-frame inference
+	storeIdx := ""
+	if pre := "(store " + cur + " "; strings.HasPrefix(term, pre) {
+		storeIdx = firstSexpr(term[len(pre):])
+	}
 	g := tAnd(st.guard...)
 	if g != "true" {
 		term = tIte(g, term, cur)
@@ -513,13 +518,11 @@ func (u *Unit) heapSet(st *State, name, valSort, term string) {
 	c := u.d.fresh(name, arrSort(SInt, valSort))
 	st.assumeFact(tEq(c, term))
 	st.heap[name] = c
-	if pre := "(store " + cur + " "; strings.HasPrefix(term, pre) {
-		rest := term[len(pre):]
-		idx := firstSexpr(rest)
+	if storeIdx != "" {
 		if u.storeLog == nil {
 			u.storeLog = map[string][2]string{}
 		}
-		u.storeLog[c] = [2]string{cur, idx}
+		u.storeLog[c] = [2]string{cur, storeIdx}
 	}
 }
 
